@@ -58,8 +58,8 @@ fn main() {
         Some("run") => {
             let f = BufReader::new(File::open(&args[2]).expect("ops file"));
             let mut ex = Exec::new();
-            let stdout = std::io::stdout();
-            let mut w = BufWriter::new(stdout.lock());
+            // outcomes go to a file: the VM prints panic texts on stdout
+            let mut w = BufWriter::new(File::create(&args[3]).expect("impl output file"));
             for line in f.lines() {
                 let line = line.unwrap();
                 if line.trim().is_empty() {
@@ -85,7 +85,7 @@ fn main() {
             println!("generated {} ops", sink.count);
         }
         _ => {
-            eprintln!("usage: harness run <ops> | genrun <prop> <seed> <n> <ops_out> <impl_out>");
+            eprintln!("usage: harness run <ops> <impl_out> | genrun <prop> <seed> <n> <ops_out> <impl_out>");
             std::process::exit(2);
         }
     }
